@@ -309,6 +309,8 @@ func genRichScenario(t *rapid.T) *RichScenario {
 		}
 		sc.Steps = append(sc.Steps, st)
 	}
+	// the shape of the consumer (drawn last: the draws above are what they were)
+	sc.Unset = genUnset(t)
 	return sc
 }
 
